@@ -282,7 +282,26 @@ fn run_once(case: &Value, seed: u64, together: bool) -> Result<Obj, Obj> {
                 Err(why) => return Err(unsupported(case, &why)),
             }
         }
-        match env.run_tasks(tasks, cfg) {
+        if together {
+            simrun::rec_start();
+        }
+        let outcome = env.run_tasks(tasks, cfg);
+        if together {
+            let ev: Vec<Value> = simrun::rec_take()
+                .into_iter()
+                .map(|e| match e {
+                    simrun::TaskEvent::Claim { task, slot } => json!({"ev": "claim", "task": task, "slot": slot, "idx": 0}),
+                    simrun::TaskEvent::ClaimFail { task, slot } => json!({"ev": "claimfail", "task": task, "slot": slot, "idx": 0}),
+                    simrun::TaskEvent::Index { task, slot, idx } => json!({"ev": "index", "task": task, "slot": slot, "idx": idx}),
+                    simrun::TaskEvent::Send { slot } => json!({"ev": "send", "task": -1, "slot": slot, "idx": 0}),
+                    simrun::TaskEvent::Rx { idx } => json!({"ev": "rx", "task": -2, "slot": 255, "idx": idx}),
+                    simrun::TaskEvent::Deliver { slot } => json!({"ev": "deliver", "task": -2, "slot": slot, "idx": 0}),
+                    simrun::TaskEvent::Release { task, slot } => json!({"ev": "release", "task": task, "slot": slot, "idx": 0}),
+                })
+                .collect();
+            out.insert("events".into(), Value::Array(ev));
+        }
+        match outcome {
             Phase::Done(o) => {
                 let st = o.stats();
                 for (k, &t) in batch.iter().enumerate() {
